@@ -946,6 +946,7 @@ func c13luFresh(c c13luCfg, ca string) ([]string, string) {
 func TestVerifC13ListenerUpdateHistory(t *testing.T) {
 	p := vreport.Begin("C13", c13luPartName, time.Duration(vreport.Pick(4, 25))*time.Minute)
 	c13luSetup()
+	c13luRoot = t.TempDir()
 	depth := vreport.Pick(3, 4)
 	alphabet := c13luAlphabet()
 
@@ -973,21 +974,30 @@ func TestVerifC13ListenerUpdateHistory(t *testing.T) {
 			p.Violation("listener update: AddOrUpdateListener panics", r.panicked, c)
 			return
 		}
-		last := c.History[len(c.History)-1]
-		lastFailed := r.errs[len(r.errs)-1] != ""
+		if r.lastCfg < 0 {
+			// only file events so far
+			stateOf = "no-listener|ca-file=" + r.fileCA
+			p.Outcome("no-listener")
+			return
+		}
+		// the last LISTENER operation decides the policy; file events after it
+		// rewrite the CA file but nothing is rebuilt, so nothing may change
+		last := c.History[r.lastCfg]
+		lastFailed := r.errs[r.lastCfg] != ""
+		caInForce := r.caAt[r.lastCfg]
 		if last.TLS != "broken" && lastFailed {
 			p.Violation("listener update: a valid configuration is rejected",
-				fmt.Sprintf("history %v: the last operation failed: %s", c.History, r.errs[len(r.errs)-1]), c)
+				fmt.Sprintf("history %v: the last listener operation failed: %s", c.History, r.errs[r.lastCfg]), c)
 			return
 		}
 		if last.TLS == "broken" && !lastFailed {
 			p.Violation("listener update: a context with an unparsable certificate and no fall_back is accepted",
-				fmt.Sprintf("history %v: the last operation succeeded", c.History), c)
+				fmt.Sprintf("history %v: the last listener operation succeeded", c.History), c)
 			return
 		}
 		if r.al == nil {
 			// nothing was ever added (the only operations so far failed)
-			stateOf = "no-listener"
+			stateOf = "no-listener|ca-file=" + r.fileCA
 			p.Outcome("no-listener")
 			return
 		}
@@ -1001,16 +1011,16 @@ func TestVerifC13ListenerUpdateHistory(t *testing.T) {
 			upd = 2
 		}
 		stored := c13luStored(r.al)
-		stateOf = fmt.Sprintf("%s|behaviour=%s|updates=%d", stored, strings.Join(obs, ","), upd)
+		stateOf = fmt.Sprintf("%s|behaviour=%s|updates=%d|ca-file=%s", stored, strings.Join(obs, ","), upd, r.fileCA)
 		p.Outcome(strings.Join(obs, ","))
 		p.Distinct(fmt.Sprintf("%v->%v/upd%d", func() interface{} {
 			if len(c.History) > 1 {
 				return c.History[len(c.History)-2]
 			}
 			return "none"
-		}(), last, upd))
+		}(), c.History[len(c.History)-1], upd))
 		if p.WantSample() {
-			p.Sample(map[string]interface{}{"history": c.History, "errors": r.errs, "behaviour": detail, "stored": stored})
+			p.Sample(map[string]interface{}{"history": c.History, "errors": r.errs, "behaviour": detail, "stored": stored, "ca_file_now": r.fileCA, "ca_file_at_last_listener_operation": caInForce})
 		}
 
 		if lastFailed {
@@ -1025,7 +1035,7 @@ func TestVerifC13ListenerUpdateHistory(t *testing.T) {
 
 		// (1) reference rule, per probe
 		for i, pr := range c13luProbes {
-			want, got := c13luWant(last, pr), obs[i]
+			want, got := c13luWant(last, pr, caInForce), obs[i]
 			if want == got {
 				continue
 			}
@@ -1041,12 +1051,14 @@ func TestVerifC13ListenerUpdateHistory(t *testing.T) {
 				key = "listener after update history: TLS is not applied although the last update enables it"
 			case strings.HasPrefix(want, "tls:") && strings.HasPrefix(got, "tls:"):
 				key = "listener after update history: the certificate presented is not the one of the last update"
+			case last.TLS == c13luFilesForm && pr.Peer != "none":
+				key = "listener after update history: client authentication does not follow the CA the ca_cert file held at the last update (" + pr.Peer + " " + map[bool]string{true: "refused", false: "admitted"}[got == "refused"] + ")"
 			case want == "refused":
 				key = "listener after update history: a client is admitted against the last update's client authentication mode (" + pr.Peer + ")"
 			default:
 				key = "listener after update history: a client is refused although the last update's client authentication mode admits it (" + pr.Peer + ")"
 			}
-			if len(c.History) == 1 {
+			if r.lastCfg == 0 && len(c.History) == 1 {
 				key = strings.Replace(key, "listener after update history", "freshly added listener", 1)
 				key = strings.Replace(key, "the last update", "its configuration", -1)
 			}
@@ -1055,7 +1067,7 @@ func TestVerifC13ListenerUpdateHistory(t *testing.T) {
 		}
 
 		// (2) differential: a fresh handler with only the last configuration
-		fresh, herr := c13luFresh(last)
+		fresh, herr := c13luFresh(last, caInForce)
 		if herr != "" {
 			harness(c, "fresh reference: "+herr)
 			return
@@ -1072,7 +1084,7 @@ func TestVerifC13ListenerUpdateHistory(t *testing.T) {
 		}
 
 		// (3) stored configuration = last update, for what the update branch applies
-		want, err := c13luBuild(last)
+		want, err := c13luBuild(last, r.dir)
 		if err != nil {
 			harness(c, "cannot build configuration: "+err.Error())
 			return
@@ -1088,7 +1100,7 @@ func TestVerifC13ListenerUpdateHistory(t *testing.T) {
 		}
 	}
 
-	seen := map[string]bool{"no-listener": true}
+	seen := map[string]bool{"no-listener|ca-file=A": true}
 	states, transitions := 1, 0
 	perDepth := []int{}
 	gen := func(yield func(c13luCase) bool) {
@@ -1136,7 +1148,7 @@ func TestVerifC13ListenerUpdateHistory(t *testing.T) {
 		probeNames = append(probeNames, pr.Name)
 	}
 	p.End(complete,
-		fmt.Sprintf("breadth-first search over histories of connHandler.AddOrUpdateListener on one listener name, depth %d (1 add + %d updates), alphabet of %d configurations = TLS %v x inspector {f,t} x 2 settings of the other copied fields (network/listener/stream filters, match, buffer limit, tag, idle timeout); after every history %d probes %v over a harness loopback socket against the listener's current TLS manager (reference peer: crypto/tls, %s)",
+		fmt.Sprintf("breadth-first search over histories of connHandler.AddOrUpdateListener on one listener name interleaved with rewrites of the CA file, depth %d (e.g. 1 add + %d updates), alphabet of %d operations = (TLS %v x inspector {f,t} x 2 settings of the other copied fields (network/listener/stream filters, match, buffer limit, tag, idle timeout)) + 2 file events {ca-file=A, ca-file=B} (the form A+mtls@files names ca_cert, cert_chain, private_key by path in a per-history directory below t.TempDir(); the CA file starts as CA A); after every history %d probes %v over a harness loopback socket against the listener's current TLS manager (reference peer: crypto/tls, %s)",
 			depth, depth-1, len(alphabet), c13luTLSAlphabet(), len(c13luProbes), probeNames, map[bool]string{false: "tls1.2", true: "tls1.3"}[c13luTLS13()]),
-		"every successor = the history replayed on a fresh connHandler plus one AddOrUpdateListener; states merged on (stored configuration projection, probe outcomes, hidden activeListener fields, update count capped at 2); distinct = (previous configuration, last configuration, update count); compared: probe outcomes against the statement's rule for the LAST configuration and against a fresh listener with only that configuration, stored fields the update branch applies against the last configuration; after a REJECTED update (thorough: unparsable certificate) outcomes are recorded, not compared; sds contexts are not part of the alphabet")
+		"every successor = the history replayed on a fresh connHandler in a fresh directory plus one operation; states merged on (stored configuration projection with paths reduced to file names, probe outcomes, hidden activeListener fields, update count capped at 2, content of the CA file); distinct = (previous operation, last operation, update count); compared: probe outcomes against the statement's rule for the LAST listener operation - for the path form the configured CA is the content the CA file had at that operation, a later rewrite without update changes nothing - and against a fresh listener that only got that configuration (with the CA file as it was then), stored fields the update branch applies against the last configuration; after a REJECTED update (thorough: unparsable certificate) outcomes are recorded, not compared; sds contexts are not part of the alphabet")
 }
